@@ -68,7 +68,7 @@ def generate(reg,c,pins=None,only_case=None,only_variant=None,extra_requires=())
             ob('raises',cs.name).queries.append(mk(z3.BoolVal(False),f"returns {ctl[1]!r} instead of raising {cs.raises}"))
             continue
           env2=dict(env); env2['result']=ctl[1]
-          if getattr(c,'region',None): env2.update(so.env)        # a region's postcondition speaks about the locals at its end
+          if getattr(c,'region',None) or getattr(c,'post_locals',False): env2.update(so.env)        # a region's postcondition speaks about the locals at its end
           for gk,gv in so.env.items():
             if gk.startswith('g_'): env2[gk]=gv
           for k,cl in enumerate(cs.clauses()):
